@@ -542,16 +542,30 @@ def audit_extra(ctx, module, names):
     if ok:
         found, text = _print_axioms('import Sio.Props.%s' % module, full)
     else:
-        src = open(os.path.join(LEAN, 'Sio', 'Props', module + '.lean')).read()
-        found, text = _print_axioms(src, full)
-        ctx.notes.append('lake build Sio.Props.%s failed; its theorems were judged one by one' % module)
-        if not found and re.search(r'object file .* does not exist|unknown module prefix|could not resolve import',
-                                   text):
-            raise Infra('imports of Sio.Props.%s are not built (tree changed during the run?):\n%s'
-                        % (module, (out + '\n' + text)[-2000:]))
+        # which targets failed?  (lake: "Some required targets logged failures:\n- Sio.X\n- …")
+        failed = re.findall(r'^- (\S+)\s*$', out.split('Some required targets logged failures:')[-1], re.M) \
+            if 'Some required targets logged failures:' in out else []
+        broken_imports = [t for t in failed if t != 'Sio.Props.' + module]
+        if broken_imports:
+            # an import of the module no longer compiles: nothing of the module can be judged.  This is a
+            # proof obligation that no longer checks (never an infrastructure error).
+            errs = [ln for ln in out.splitlines() if ln.startswith('error:')][:8]
+            problems.append('Sio.Props.%s cannot be checked: its import %s does not build: %s'
+                            % (module, ', '.join(broken_imports), ' | '.join(e[:300] for e in errs)))
+            found, text = {}, out
+        else:
+            src = open(os.path.join(LEAN, 'Sio', 'Props', module + '.lean')).read()
+            found, text = _print_axioms(src, full)
+            ctx.notes.append('lake build Sio.Props.%s failed; its theorems were judged one by one' % module)
+            if not found and re.search(r'object file .* does not exist|unknown module prefix|could not resolve import',
+                                       text):
+                raise Infra('imports of Sio.Props.%s are not built although lake reports no failing import '
+                            '(tree changed during the run?):\n%s' % (module, (out + '\n' + text)[-2000:]))
     theorems, discharged = [], 0
     for n in full:
         if n not in found:
+            if not ok and broken_imports:
+                continue            # reported once, above
             problems.append('theorem %s does not check (not reported by #print axioms):\n%s'
                             % (n, (text if ok else out + '\n' + text)[-2500:]))
             continue
